@@ -54,4 +54,12 @@ ts = [threading.Thread(target=worker, args=(k,)) for k in range(max(1, min(J, le
 sh(['git', '-C', '/repo', 'worktree', 'prune'])
 path = f'{VERIF}/rewrites/RESULTS.json'
 res = json.load(open(path)) if os.path.exists(path) else {}
-res.update(results); json.dump(dict(sorted(res.items())), open(path, 'w'), indent=1)
+res.update(results)
+# a rewrite that a later `fix:` commit made obsolete keeps its explanation (recorded in its meta.json)
+for rid in res:
+    try:
+        note = json.load(open(f'/verif/rewrites/{rid}/meta.json')).get('superseded')
+        if note: res[rid]['superseded'] = note
+    except Exception:
+        pass
+json.dump(dict(sorted(res.items())), open(path, 'w'), indent=1)
